@@ -798,7 +798,11 @@ def json_cli_fixed(args) -> List[Tuple[str, Dict[str, Any], str, Any]]:
     wd, seed = args
     from configs.validate import validate_config_verbose
     docs = {"enum": {"t2": {"backend": "nosuch"}}, "enum2": {"scheduler": {"policy": "nosuch"}}, "range": {"t2": {"k_retrieval": 0}},
-            "two": {"t2": {"backend": "nosuch", "k_retrieval": 0}}, "valid": {"t2": {"k_retrieval": 3}}, "empty": {}}
+            "two": {"t2": {"backend": "nosuch", "k_retrieval": 0}}, "valid": {"t2": {"k_retrieval": 3}}, "empty": {},
+            # explicit nulls (an empty `quality:` line in YAML): accepted by the API, so the CLI must report OK and exit 0
+            "null_quality": {"t2": {"quality": None}}, "null_t1": {"t1": None}, "null_sched": {"scheduler": None},
+            "null_perf": {"perf": None}, "null_graph": {"graph": None}, "null_t4_cache": {"t4": {"cache": None}},
+            "null_budgets": {"scheduler": {"budgets": None}}, "null_hybrid": {"t2": {"hybrid": None}}}
     d = os.path.join(wd, f"jsoncli_{os.getpid()}")
     os.makedirs(d, exist_ok=True)
     env = dict(os.environ)
@@ -817,13 +821,15 @@ def json_cli_fixed(args) -> List[Tuple[str, Dict[str, Any], str, Any]]:
             import yaml
             yaml.safe_dump(doc, f)
         for variant, cmd in (("python -m clematis validate --json FILE", [sys.executable, "-m", "clematis", "validate", "--json", path]),
-                             ("python -m clematis.scripts.validate --json FILE", [sys.executable, "-m", "clematis.scripts.validate", "--json", path])):
+                             ("python -m clematis.scripts.validate --json FILE", [sys.executable, "-m", "clematis.scripts.validate", "--json", path]),
+                             ("python -m clematis validate FILE", [sys.executable, "-m", "clematis", "validate", path]),
+                             ("python -m clematis.scripts.validate FILE", [sys.executable, "-m", "clematis.scripts.validate", path])):
             p_ = subprocess.run(cmd, cwd=d, env=env, stdout=subprocess.PIPE, stderr=subprocess.PIPE, text=True, timeout=120)
             both = p_.stdout + "\n" + p_.stderr
             case = {"v": {}, "doc": doc, "variant": variant}
             if "Traceback (most recent call last)" in both:
                 last = [ln for ln in p_.stderr.strip().splitlines() if ln.strip()][-1:]
-                fails.append(("TotalTyped", {"cause": "cli-json-traceback", "variant": variant.split(" FILE")[0]},
+                fails.append(("TotalTyped", {"cause": "cli-json-traceback" if "--json" in variant else "cli-traceback", "variant": variant.split(" FILE")[0]},
                               f"[{name}] `{variant}` on {doc} ends in a traceback: {last}", case))
                 continue
             if (p_.returncode == 0) != (verdict == "accept"):
